@@ -7,12 +7,6 @@ import APModel.Model.Order
 namespace APModel.Order
 open List
 
-/-- The ranking key: `none` for nil (ranks before every object), otherwise the later of the
-published / updated instants. -/
-def key : OItem → Option Int
-  | .nil => none
-  | .obj p u => some (max p u)
-
 /-- "x ranks at or before y" in newest-first order on keys. -/
 def kle : Option Int → Option Int → Prop
   | none, _ => True
@@ -75,8 +69,94 @@ theorem C17_sort_permutation_independent (l₁ l₂ : List OItem) (hp : l₁ ~ l
   List.Perm.eq_of_pairwise (fun a b _ _ hab hba => kle_antisymm a b hab hba)
     (C17_sorted_newest_first l₁ h₁) (C17_sorted_newest_first l₂ h₂) (hp.map key)
 
+/-! ### a sort driven by the comparator
+
+`sort.Slice(items, func(i, j) bool { return ItemOrderTimestamp(items[i], items[j]) })` is modelled by
+the simplest comparison sort that asks only the comparator: insertion of each element before the
+first one it ranks strictly before. The theorems are stated for ANY comparator that is asymmetric and
+transitive and then instantiated with `itemOrder` (whose two laws are `C17_asymmetric` and
+`C17_transitive`), so they show what the strict-weak-order laws buy. -/
+
+section CmpSort
+variable {α : Type} (less : α → α → Bool)
+
+theorem insBy_perm (x : α) (l : List α) : insBy less x l ~ x :: l := by
+  induction l with
+  | nil => exact List.Perm.refl _
+  | cons y r ih =>
+    simp only [insBy]
+    split
+    · exact List.Perm.refl _
+    · exact ((List.Perm.cons y ih).trans (List.Perm.swap x y r))
+
+theorem sortBy_perm (l : List α) : sortBy less l ~ l := by
+  induction l with
+  | nil => exact List.Perm.refl _
+  | cons x r ih => exact (insBy_perm less x _).trans (List.Perm.cons x ih)
+
+theorem insBy_sorted
+    (hasym : ∀ a b, less a b = true → less b a = false)
+    (htrans : ∀ a b c, less a b = true → less b c = true → less a c = true)
+    (x : α) (l : List α) (h : l.Pairwise (fun a b => less b a = false)) :
+    (insBy less x l).Pairwise (fun a b => less b a = false) := by
+  induction l with
+  | nil => simp [insBy]
+  | cons y r ih =>
+    rw [List.pairwise_cons] at h
+    simp only [insBy]
+    split
+    · rename_i hxy
+      rw [List.pairwise_cons]
+      refine ⟨?_, List.pairwise_cons.mpr h⟩
+      intro b hb
+      rcases List.mem_cons.mp hb with e | hb
+      · subst e; exact hasym _ _ hxy
+      · cases hbx : less b x with
+        | false => rfl
+        | true => have := htrans b x y hbx hxy; rw [h.1 b hb] at this; cases this
+    · rename_i hxy
+      rw [List.pairwise_cons]
+      refine ⟨?_, ih h.2⟩
+      intro b hb
+      rcases List.mem_cons.mp ((insBy_perm less x r).mem_iff.mp hb) with e | hb
+      · subst e; simpa using hxy
+      · exact h.1 b hb
+
+theorem sortBy_sorted
+    (hasym : ∀ a b, less a b = true → less b a = false)
+    (htrans : ∀ a b c, less a b = true → less b c = true → less a c = true)
+    (l : List α) : (sortBy less l).Pairwise (fun a b => less b a = false) := by
+  induction l with
+  | nil => simp [sortBy]
+  | cons x r ih => exact insBy_sorted less hasym htrans x _ ih
+
+end CmpSort
+
+/-- Sorting any list of objects and nils with the comparator yields a sorted arrangement of the
+same items … -/
+theorem C17_sort_sorts (l : List OItem) : SortedBy (sortBy itemOrder l) ∧ sortBy itemOrder l ~ l :=
+  ⟨sortBy_sorted itemOrder C17_asymmetric C17_transitive l, sortBy_perm itemOrder l⟩
+
+/-- … which is newest-first … -/
+theorem C17_sort_newest_first (l : List OItem) : ((sortBy itemOrder l).map key).Pairwise kle :=
+  C17_sorted_newest_first _ (C17_sort_sorts l).1
+
+/-- … and the sequence of keys it shows does not depend on the permutation it started from. -/
+theorem C17_sort_any_permutation (l₁ l₂ : List OItem) (hp : l₁ ~ l₂) :
+    (sortBy itemOrder l₁).map key = (sortBy itemOrder l₂).map key :=
+  C17_sort_permutation_independent _ _
+    (((C17_sort_sorts l₁).2.trans hp).trans (C17_sort_sorts l₂).2.symm)
+    (C17_sort_sorts l₁).1 (C17_sort_sorts l₂).1
+
+/-- Why the laws matter: with a comparator that is not asymmetric (here `≤` on numbers read as
+"strictly before") the same sort leaves an arrangement that is not sorted by it. -/
+theorem C17_laws_needed :
+    ¬ (sortBy (fun a b : Nat => decide (a ≤ b)) [1, 1]).Pairwise
+        (fun a b => decide (b ≤ a) = false) := by decide
+
 /-! non-vacuity -/
 example : SortedBy [.nil, .obj 5 9, .obj 7 0, .obj 1 2] := by unfold SortedBy; decide
 example : itemOrder (.obj 5 9) (.obj 7 0) = true := by decide
+example : sortBy itemOrder [.obj 1 2, .obj 7 0, .nil, .obj 5 9] = [.nil, .obj 5 9, .obj 7 0, .obj 1 2] := by decide
 
 end APModel.Order
